@@ -292,7 +292,7 @@ pub fn compute_swap(
 
             // calculate spread, swap and protocol fees
             let exchange_rate = Decimal256::from_ratio(ask_pool, offer_pool);
-            let spread_amount: Uint256 = (offer_amount * exchange_rate) - return_amount;
+            let spread_amount: Uint256 = (offer_amount * exchange_rate).saturating_sub(return_amount);
             let swap_fee_amount: Uint256 = pool_fees.swap_fee.compute(return_amount);
             let protocol_fee_amount: Uint256 = pool_fees.protocol_fee.compute(return_amount);
             let burn_fee_amount: Uint256 = pool_fees.burn_fee.compute(return_amount);
